@@ -400,7 +400,7 @@ func monStep(m mon, slot int, slotIdx map[int]int, ri int, o *obs) (mon, []map[s
 			case o.atDeath:
 				nd = ndDeath
 			default:
-				nd = faultLabel(m.usedFail, m.usedDeath)
+				nd = faultLabel(m.usedFail, false)
 			}
 		}
 		switch {
